@@ -109,6 +109,11 @@ impl Parser {
                     NestedValue::Assign(logos_path) => {
                         let span = logos_path.span();
 
+                        if syn::parse2::<syn::Path>(logos_path.clone()).is_err() {
+                            self.err("Expected: #[logos(crate = path::to::logos)]", span);
+                            continue;
+                        }
+
                         if let Some(previous) = self.logos_path.replace(logos_path) {
                             self.err("Path to the logos crate can be defined only once", span)
                                 .err("Previous definition here", previous.span());
